@@ -39,6 +39,7 @@ type stats struct {
 	startedWhileInsideFeed, mixedEnc, nilPath, perPathOrigins, rpcDeadline, walkParkedInInsert bool
 	aclFlipped, oddTargetNames, updatesOnlyRound, atomicTwist                                  bool
 	foreignWrite, foreignDeniedStored, pollFlood, pollFloodBig, pollFloodLeftStalled           bool
+	dressed, malformedFirst, twinPaths                                                         bool
 	skippedSteps, maxBulk, maxOnceLeaves                                                       int
 }
 
@@ -96,6 +97,9 @@ func (s *stats) labels() []string {
 	add(s.pollFlood, "poll-triggers-while-the-subscriber-is-stalled")
 	add(s.pollFloodBig, "poll-triggers-while-stalled>=5")
 	add(s.pollFloodLeftStalled, "poll-client-left-stalled-after-triggers")
+	add(s.dressed, "request-dressed-with-unimplemented-fields")
+	add(s.malformedFirst, "first-message-is-not-a-subscription-request")
+	add(s.twinPaths, "paths-of-one-request-that-read-the-same-when-joined")
 	add(s.maxBulk > 32, "bulk-update>32")
 	add(s.maxBulk > 64, "bulk-update>64")
 	add(s.maxBulk > 256, "bulk-update>256")
@@ -270,6 +274,7 @@ type subState struct {
 	offers      int        // items offered during the current step
 	stallStart  int64      // virtual time the currently parked Send began (from the stream)
 	timedOut    bool
+	first       *pb.SubscribeRequest // what is sent first when spec.First says so (nil with "eof": nothing is)
 	flooded     bool // poll triggers were issued while it was not reading (pollflood): the C05 round clauses do not apply
 }
 
@@ -527,7 +532,13 @@ func (w *world) newSub(i int, spec SubSpec) *subState {
 	default:
 		sl.Mode = pb.SubscriptionList_STREAM
 	}
+	joined := map[string]string{}
 	for _, p := range spec.Paths {
+		idx := gn.IndexOfElems(p.Elems, false)
+		if prev, ok := joined[strings.Join(idx, "/")]; ok && prev != gn.Key(idx) {
+			w.st.twinPaths = true
+		}
+		joined[strings.Join(idx, "/")] = gn.Key(idx)
 		pp := gn.Path("", p.Origin, p.Elems, p.Element, 0)
 		if p.Unset && p.Origin == "" && len(p.Elems) == 0 {
 			pp = nil
@@ -550,7 +561,42 @@ func (w *world) newSub(i int, spec SubSpec) *subState {
 			}
 		}
 	}
+	if spec.Dress > 0 {
+		// fields the server does not implement: whatever they hold, the request behaves like the plain one
+		d := uint64(spec.Dress)
+		next := func(n uint64) uint64 { d = d*6364136223846793005 + 1442695040888963407; return (d >> 33) % n }
+		sl.Qos = &pb.QOSMarking{Marking: uint32(next(64))}
+		sl.AllowAggregation = next(2) == 0
+		sl.Encoding = pb.Encoding(next(5))
+		if next(3) == 0 {
+			sl.UseModels = []*pb.ModelData{{Name: "m", Organization: "o", Version: "1"}}
+		}
+		for _, sub := range sl.Subscription {
+			sub.Mode = pb.SubscriptionMode(next(3))
+			sub.SampleInterval = []uint64{0, 1, 1_000_000_000, 1 << 62}[next(4)]
+			sub.SuppressRedundant = next(2) == 0
+			sub.HeartbeatInterval = []uint64{0, 1, 60_000_000_000}[next(3)]
+		}
+		w.st.dressed = true
+	}
 	s.req = &pb.SubscribeRequest{Request: &pb.SubscribeRequest_Subscribe{Subscribe: sl}}
+	switch spec.First {
+	case "poll":
+		s.first = &pb.SubscribeRequest{Request: &pb.SubscribeRequest_Poll{Poll: &pb.Poll{}}}
+	case "noprefix":
+		c := proto.Clone(sl).(*pb.SubscriptionList)
+		c.Prefix = nil
+		s.first = &pb.SubscribeRequest{Request: &pb.SubscribeRequest_Subscribe{Subscribe: c}}
+	case "notarget":
+		c := proto.Clone(sl).(*pb.SubscriptionList)
+		c.Prefix.Target = ""
+		s.first = &pb.SubscribeRequest{Request: &pb.SubscribeRequest_Subscribe{Subscribe: c}}
+	case "empty":
+		s.first = &pb.SubscribeRequest{}
+	}
+	if spec.First != "" {
+		w.st.malformedFirst = true
+	}
 	if s.target == "*" {
 		w.st.starSub = true
 	}
@@ -932,7 +978,17 @@ func (w *world) stepStart(st Step) {
 	}
 	s.snapshot = w.expected(s)
 	s.startLive = s.target == "*" || w.live[s.target]
-	s.stream.recvC <- s.req
+	switch {
+	case s.spec.First == "":
+		s.stream.recvC <- s.req
+	case s.first != nil:
+		s.cancelled = true // the scenario itself ends this RPC: its first message is not a request
+		s.stream.recvC <- s.first
+	default:
+		s.cancelled = true
+		close(s.stream.recvC) // "eof": the client half-closes without having sent anything
+		s.eofSent = true
+	}
 	owner := fmt.Sprintf("sub:%d", s.i)
 	queueGate := st.Park == "coalesce.next.empty" || st.Park == "coalesce.insert.checked"
 	switch {
@@ -1828,6 +1884,11 @@ func (w *world) monitorSends() {
 				}
 				if len(out) > 0 || s.stream.sendCalls > 0 {
 					w.failf("C07", "subscription %d: unauthenticated RPC was sent %d responses", s.i, len(out))
+				}
+			case s.spec.First != "":
+				// (not a request: refused before any target is looked at; with an unusable ACL backend the arm above applies)
+				if len(out) > 0 || s.stream.sendCalls > 0 {
+					w.failf("C07", "subscription %d: its first message was not a subscription request, yet it was sent %d responses", s.i, len(out))
 				}
 			case s.target != "*" && !w.acl.allowedAt(u, s.target, s.startStep):
 				w.st.deniedSingle = true
